@@ -2344,6 +2344,26 @@ def c15(rep, tier, seed, wd, replay):
             found = True
         elif crashed_:
             rep.broken.append(("implementation-crash:conc-wide", err_[-1500:], False))
+    # bursts of SINGLE requests for many DISTINCT keys at the same instant (each makes its own synced store write; none shares a key
+    # lock with another): whatever the store does with writes that arrive while another is being synced, all of them return
+    for pgo in ([None, 4] if tier != "thorough" else [None, 2, 4, 64]):
+        r_ = rng.fork()
+        cops = []
+        for wave in range(3):
+            sub = r_.shuffle(waccts)[:60]
+            cops += [(wave * 25, conc_.att_op(conc_.name(a_), 1, 40 + wave, wave)) for a_ in sub[:40]]
+            cops += [(wave * 25 + 1, conc_.prop_op(conc_.name(a_), 40 + wave, wave)) for a_ in sub[40:]]
+        sl = conc_.scenario_lines([], "-", cops, 0)
+        io_, crashed_, err_ = _ri(dh, wd, ["reset"] + wcfg + sl, env={"GOMAXPROCS": str(pgo)} if pgo else None, timeout=600)
+        rep.dist("scenario", "distinct-key-single-burst")
+        rep.count("burst|%s" % pgo, True)
+        if any(o.startswith("TIMEOUT") for o in io_):
+            rep.violation("deadlock", "concurrent requests did not all complete within the watchdog (bursts of single requests for distinct keys): " + [o for o in io_ if o.startswith("TIMEOUT")][0],
+                          {"config": wcfg, "scenario": sl, "gomaxprocs": pgo})
+            found = True
+            break
+        elif crashed_:
+            rep.broken.append(("implementation-crash:conc-burst", err_[-1500:], False))
     # first use after start-up: several requests for accounts that are still LOCKED arrive together, and each learns the lock state
     # a little later than the one before (`stalelock`: by the time it acts on "locked", others may have unlocked the account,
     # or be unlocking it) — all of them, and the requests that follow, complete
